@@ -60,7 +60,7 @@ func (s *streamWriter) Invoke(msgs []actor.Envelope) {
 		senders      = make([]*actor.PID, 0)
 		targetLookup = make(map[pidKey]int32)
 		targets      = make([]*actor.PID, 0)
-		messages     = make([]*Message, len(msgs))
+		messages     = make([]*Message, 0, len(msgs))
 	)
 
 	for i := 0; i < len(msgs); i++ {
@@ -70,22 +70,23 @@ func (s *streamWriter) Invoke(msgs []actor.Envelope) {
 			senderID int32
 			targetID int32
 		)
-		typeID, typeNames = lookupTypeName(typeLookup, s.serializer.TypeName(stream.msg), typeNames)
-		senderID, senders = lookupPIDs(senderLookup, stream.sender, senders)
-		targetID, targets = lookupPIDs(targetLookup, stream.target, targets)
-
+		// A message that cannot be serialized is dropped on its own; it must
+		// not leave a hole in the batch or entries in the lookup tables.
 		b, err := s.serializer.Serialize(stream.msg)
 		if err != nil {
 			slog.Error("serialize", "err", err)
 			continue
 		}
+		typeID, typeNames = lookupTypeName(typeLookup, s.serializer.TypeName(stream.msg), typeNames)
+		senderID, senders = lookupPIDs(senderLookup, stream.sender, senders)
+		targetID, targets = lookupPIDs(targetLookup, stream.target, targets)
 
-		messages[i] = &Message{
+		messages = append(messages, &Message{
 			Data:          b,
 			TypeNameIndex: typeID,
 			SenderIndex:   senderID,
 			TargetIndex:   targetID,
-		}
+		})
 	}
 
 	env := &Envelope{
